@@ -42,6 +42,10 @@ fn alphabet(p: Prop) -> Vec<Cmd> {
             Remove(vec![Al("a")]),
             RemoveSearchEdgesFrom(Id(1)),
             InsertNodesAliases(vec!["a"]),
+            // one query naming a new alias twice: the second occurrence is the node the first created
+            InsertNodesAliases(vec!["r", "r"]),
+            // an existing EDGE id as an endpoint must be rejected without effect
+            InsertEdges { from: vec![Id(-3)], to: vec![Id(1)], each: false, values: Vals::None },
         ],
         Prop::C09 => vec![
             InsertNodes(1),
@@ -63,6 +67,7 @@ fn alphabet(p: Prop) -> Vec<Cmd> {
             InsertNodes(1),
             InsertNodesAliases(vec!["a"]),
             InsertNodesAliases(vec!["b", ""]),
+            InsertNodesAliases(vec!["c", "c"]),
             InsertNodesValues(vec![""], vec![vec![(K1, 1)]]),
             InsertEdges { from: vec![Id(1)], to: vec![Id(1)], each: false, values: Vals::None },
             InsertAliases(vec!["a"], vec![Id(1)]),
